@@ -1,8 +1,12 @@
 """Synthetic DictLike classes for C40: one class per subset of field features.
 
-Features: array, tuple, enum, nested, optional, dict, xgrid. A class always has the plain scalar
+Features: array, tuple, enum, nested, optional, dict, xgrid, plaindc. A class always has the plain scalar
 fields f (float), i (int), b (bool), s (str). Every *leaf* of a value can be planted with the
 NumPy scalar of its kind (np.float64 / np.int64 / np.bool_).
+
+optional: o Optional[float], on Optional[int], oe Optional[Enum], ob Optional[bool], os Optional[str]
+plaindc:  p, a plain (non-DictLike) nested dataclass (dictlike.py has dedicated code for both directions);
+          its leaves are listed separately (`plain_leaves`), they are not part of the "*" plant
 
 `build(features, hint)` returns (cls, leaves) where leaves is the ordered list of leaf names;
 `instance(cls, features, plant)` constructs the object with plain Python leaves, except the
@@ -16,7 +20,7 @@ import typing
 import numpy as np
 import numpy.typing as npt
 
-FEATURES = ["array", "tuple", "enum", "nested", "optional", "dict", "xgrid"]
+FEATURES = ["array", "tuple", "enum", "nested", "optional", "dict", "xgrid", "plaindc"]
 
 
 class Colour(enum.Enum):
@@ -44,6 +48,21 @@ def _inner_cls():
     return _cache["inner"]
 
 
+def _plain_cls():
+    if "plain" not in _cache:
+
+        @dataclasses.dataclass
+        class Plain:
+            px: float
+            pi: int
+            pl: typing.List[float]
+            ps: str
+
+        Plain.__qualname__ = "Plain"
+        _cache["plain"] = Plain
+    return _cache["plain"]
+
+
 def build(features, hint="np.ndarray"):
     """Create the DictLike subclass having the given feature fields."""
     from eko.interpolation import XGrid
@@ -68,11 +87,15 @@ def build(features, hint="np.ndarray"):
         fields.append(("o", typing.Optional[float]))
         fields.append(("on", typing.Optional[int]))
         fields.append(("oe", typing.Optional[Colour]))
+        fields.append(("ob", typing.Optional[bool]))
+        fields.append(("os", typing.Optional[str]))
     if "dict" in features:
         fields.append(("d", dict))
     if "xgrid" in features:
         fields.append(("x", XGrid))
         fields.append(("xl", XGrid))
+    if "plaindc" in features:
+        fields.append(("p", _plain_cls()))
     cls = dataclasses.make_dataclass(
         "Syn_" + "_".join(sorted(features)) if features else "Syn_plain", fields, bases=(DictLike,)
     )
@@ -94,16 +117,28 @@ def leaves(features):
     return out
 
 
+def plain_leaves(features):
+    """Leaves inside the nested plain dataclass (planted one at a time, never through "*")."""
+    return [("p.px", "float64"), ("p.pi", "int64"), ("p.pl[0]", "float64")] if "plaindc" in features else []
+
+
 NPK = {"float64": np.float64, "int64": np.int64, "bool_": np.bool_}
+# further NumPy scalar kinds, planted at the always-present plain leaves (value exactly representable in every kind)
+EXTRA_KINDS = [
+    ("f", "float32", np.float32), ("f", "float16", np.float16), ("i", "int32", np.int32), ("i", "uint8", np.uint8),
+    ("i", "int8", np.int8), ("s", "str_", np.str_),
+]
 
 
 def instance(cls, features, plant=None):
     """Construct through the constructor (values of the declared types)."""
     from eko.interpolation import XGrid
 
-    kinds = dict(leaves(features))
+    kinds = dict(leaves(features) + plain_leaves(features))
 
     def v(name, value):
+        if name.startswith("p."):
+            return NPK[kinds[name]](value) if plant == name else value
         if plant == "*" or plant == name:
             return NPK[kinds[name]](value)
         return value
@@ -125,9 +160,13 @@ def instance(cls, features, plant=None):
         kw["o"] = v("o", 4.75)
         kw["on"] = None
         kw["oe"] = Colour.RED
+        kw["ob"] = True
+        kw["os"] = "word"
     if "dict" in features:
         kw["d"] = {"k": v("d.k", 8.5), "m": v("d.m", 9), "sub": {"z": v("d.sub.z", 0.75)}, "name": "x"}
     if "xgrid" in features:
         kw["x"] = XGrid([0.1, 0.5, 1.0], log=True)
         kw["xl"] = XGrid([0.2, 0.6, 1.0], log=False)
+    if "plaindc" in features:
+        kw["p"] = _plain_cls()(px=v("p.px", 0.375), pi=v("p.pi", 11), pl=[v("p.pl[0]", 2.25), 3.5], ps="plain")
     return cls(**kw)
